@@ -11,9 +11,14 @@ the difference):
   N4  `n = n + k` / `n = n - k` (k a numeric literal)                      ->  `n += k` / `n -= k`
   N5  `pass`, bare constants inside a block                                ->  removed
   N6  `t = E` followed by a statement whose first-evaluated operand is the only use of t  ->  E substituted for t
+  N7  guard clause `if c: ...; return X` followed by the rest of the block   ->  `if c: ...; return X  else: <rest>`
+      (so early returns and the nested if/else they abbreviate, and flattened elif chains, coincide; N1 then applies)
+
+  N8  calls of private helpers (`_name(...)`, `self._name(...)`) are replaced by the helper's body (see below)
 
 Line numbers of the original statements are kept for reports."""
 import ast
+import copy
 
 FLIP = {ast.Gt: ast.Lt, ast.GtE: ast.LtE}
 
@@ -29,6 +34,13 @@ class _Norm(ast.NodeTransformer):
         if isinstance(t, ast.UnaryOp) and isinstance(t.op, ast.Not) and node.orelse:
             new = ast.If(test=t.operand, body=node.orelse, orelse=node.body)
             return ast.copy_location(new, node)
+        return node
+
+    def visit_If_only(self, node):
+        """N1 on an already-normalised node (no recursion)"""
+        t = node.test
+        if isinstance(t, ast.UnaryOp) and isinstance(t.op, ast.Not) and node.orelse:
+            return ast.copy_location(ast.If(test=t.operand, body=node.orelse, orelse=node.body), node)
         return node
 
     def visit_IfExp(self, node):
@@ -60,6 +72,14 @@ class _Norm(ast.NodeTransformer):
         keep = [s for k, s in enumerate(stmts) if not (isinstance(s, ast.Pass) or
                 (k > 0 and isinstance(s, ast.Expr) and isinstance(s.value, ast.Constant)))]
         stmts = keep if keep else stmts[:1]
+        # N7: a guard clause `if c: <...; return/raise/continue/break>` followed by more statements is the if/else it abbreviates
+        for k, st in enumerate(stmts[:-1]):
+            if isinstance(st, ast.If) and not st.orelse and st.body and isinstance(st.body[-1], (ast.Return, ast.Raise, ast.Continue, ast.Break)):
+                rest = self._block(stmts[k + 1:])
+                new = ast.copy_location(ast.If(test=st.test, body=st.body, orelse=rest), st)
+                new = self.visit_If_only(new)
+                stmts = stmts[:k] + [new]
+                break
         # N6: a temporary bound once to an expression and used once, as the first thing the next statement evaluates
         stmts = self._inline_temps(stmts)
         out = []
@@ -146,4 +166,238 @@ class _Replace(ast.NodeTransformer):
 def normalise(tree):
     tree = _Norm().visit(tree)
     ast.fix_missing_locations(tree)
+    if isinstance(tree, ast.Module) and any(isinstance(x, ast.FunctionDef) and _is_private(x.name) for x in ast.walk(tree)):
+        tree = inline_helpers(tree)          # N8
+        tree = _Norm().visit(tree)           # the spliced bodies go through N1-N7 with their new surroundings
+        ast.fix_missing_locations(tree)
+    return tree
+
+
+# ---------------------------------------------------------------------------
+# N8: private helpers are part of the function that calls them
+#
+# `_helper(...)` / `self._helper(...)` (a leading underscore, defined in the same module / class, no *args) is what
+# "extract function" produces.  Its body is spliced into the caller: parameters are replaced by the (simple) argument
+# expressions, its locals are prefixed, and - all its returns being in tail position after N7 - `return E` becomes an
+# assignment to the call's target (or the caller's own return).  A helper whose body is a single `return E` is also
+# substituted inside larger expressions.
+
+def _is_private(name): return name.startswith('_') and not name.startswith('__')
+
+
+def _simple(e):
+    if isinstance(e, (ast.Name, ast.Constant)): return True
+    if isinstance(e, ast.Attribute): return _simple(e.value)
+    if isinstance(e, ast.Subscript): return _simple(e.value) and (isinstance(e.slice, ast.Slice) and all(x is None or _simple(x) for x in (e.slice.lower, e.slice.upper, e.slice.step)) or _simple(e.slice))
+    if isinstance(e, ast.UnaryOp): return _simple(e.operand)
+    return False
+
+
+def _body(fn):
+    b = fn.body
+    if b and isinstance(b[0], ast.Expr) and isinstance(b[0].value, ast.Constant) and isinstance(b[0].value.value, str): b = b[1:]
+    return b
+
+
+def _tail_returns_only(stmts):
+    """every Return of the block is in tail position, and every path through it ends in a Return"""
+    if not stmts: return False
+    for s in stmts[:-1]:
+        if any(isinstance(x, ast.Return) for x in ast.walk(s)): return False
+    last = stmts[-1]
+    if isinstance(last, ast.Return): return True
+    if isinstance(last, ast.If): return _tail_returns_only(last.body) and _tail_returns_only(last.orelse)
+    if isinstance(last, ast.Raise): return True
+    return False
+
+
+def _no_returns(stmts):
+    return not any(isinstance(x, ast.Return) and x.value is not None for s in stmts for x in ast.walk(s))
+
+
+class _Bind(ast.NodeTransformer):
+    def __init__(self, mapping, prefix, local_names):
+        self.mapping, self.prefix, self.local_names = mapping, prefix, local_names
+    def visit_Name(self, n):
+        if n.id in self.mapping: return copy.deepcopy(self.mapping[n.id])
+        if n.id in self.local_names: return ast.copy_location(ast.Name(id=self.prefix + n.id, ctx=n.ctx), n)
+        return n
+    def visit_FunctionDef(self, n): return n
+    def visit_Lambda(self, n): return n
+
+
+class _Inliner(object):
+    def __init__(self, tree):
+        self.count = 0
+        self.mod_helpers = dict((f.name, f) for f in tree.body if isinstance(f, ast.FunctionDef) and _is_private(f.name) and self._ok_sig(f))
+        self.cls_helpers = {}
+        for c in tree.body:
+            if isinstance(c, ast.ClassDef):
+                for f in c.body:
+                    if isinstance(f, ast.FunctionDef) and _is_private(f.name) and self._ok_sig(f) and f.args.args and f.args.args[0].arg == 'self':
+                        self.cls_helpers[(c.name, f.name)] = f
+
+    @staticmethod
+    def _ok_sig(f):
+        a = f.args
+        return not (a.vararg or a.kwarg or a.kwonlyargs or a.posonlyargs) and not f.decorator_list and \
+            not any(isinstance(x, (ast.Yield, ast.YieldFrom, ast.Global, ast.Nonlocal)) for x in ast.walk(f)) and \
+            not any(isinstance(x, ast.Call) and isinstance(x.func, ast.Name) and x.func.id == f.name for x in ast.walk(f))
+
+    def resolve(self, call, clsname):
+        """(helper FunctionDef, receiver expr or None)"""
+        f = call.func
+        if isinstance(f, ast.Name) and f.id in self.mod_helpers: return self.mod_helpers[f.id], None
+        if isinstance(f, ast.Attribute) and isinstance(f.value, ast.Name) and f.value.id == 'self' and (clsname, f.attr) in self.cls_helpers:
+            return self.cls_helpers[(clsname, f.attr)], f.value
+        return None, None
+
+    def bind(self, helper, call, recv):
+        """{param: arg expr} or None"""
+        params = [a.arg for a in helper.args.args]
+        if recv is not None: params = params[1:]
+        if any(isinstance(a, ast.Starred) for a in call.args) or any(k.arg is None for k in call.keywords): return None
+        if len(call.args) > len(params): return None
+        m = dict(zip(params, call.args))
+        for k in call.keywords:
+            if k.arg not in params or k.arg in m: return None
+            m[k.arg] = k.value
+        defaults = helper.args.defaults
+        for i, p in enumerate(params):
+            if p not in m:
+                di = i - (len(params) - len(defaults))
+                if di < 0: return None
+                m[p] = defaults[di]
+        if recv is not None: m['self'] = recv
+        return m
+
+    def locals_of(self, helper):
+        """names bound by statements of the helper (comprehension variables have their own scope and keep their names)"""
+        comp = set()
+        for x in ast.walk(helper):
+            if isinstance(x, (ast.ListComp, ast.SetComp, ast.DictComp, ast.GeneratorExp)):
+                for g in x.generators:
+                    for y in ast.walk(g.target):
+                        if isinstance(y, ast.Name): comp.add(id(y))
+        out = set()
+        for x in ast.walk(helper):
+            if isinstance(x, ast.Name) and isinstance(x.ctx, (ast.Store, ast.Del)) and id(x) not in comp: out.add(x.id)
+        return out - set(a.arg for a in helper.args.args)
+
+    def splice(self, helper, mapping, target_kind, target):
+        """statements replacing `target = helper(...)` / `helper(...)` / `return helper(...)`, or None"""
+        body = _body(helper)
+        if not body: return None
+        self.count += 1
+        prefix = '_h%d_' % self.count
+        pre = []
+        m = {}
+        params_assigned = set(x.id for x in ast.walk(helper) if isinstance(x, ast.Name) and isinstance(x.ctx, ast.Store))
+        for p, a in mapping.items():
+            if _simple(a) and p not in params_assigned: m[p] = a
+            else:
+                t = prefix + p
+                pre.append(ast.Assign(targets=[ast.Name(id=t, ctx=ast.Store())], value=a))
+                m[p] = ast.Name(id=t, ctx=ast.Load())
+        b = _Bind(m, prefix, self.locals_of(helper))
+        new = [b.visit(copy.deepcopy(s)) for s in body]
+        if target_kind == 'expr':
+            if not _no_returns(new):
+                if not _tail_returns_only(new): return None
+                new = self._returns_to(new, None)
+            else:
+                new = self._returns_to(new, None) if any(isinstance(x, ast.Return) for s in new for x in ast.walk(s)) and _tail_returns_only(new) else new
+                if any(isinstance(x, ast.Return) for s in new for x in ast.walk(s)): return None
+        elif target_kind == 'assign':
+            if not _tail_returns_only(new): return None
+            new = self._returns_to(new, target)
+        elif target_kind == 'return':
+            if not _tail_returns_only(new): return None
+        return pre + new
+
+    def _returns_to(self, stmts, target):
+        out = list(stmts)
+        last = out[-1]
+        if isinstance(last, ast.Return):
+            if target is None: out[-1:] = [] if last.value is None or _simple(last.value) else [ast.Expr(value=last.value)]
+            else: out[-1] = ast.Assign(targets=[copy.deepcopy(t) for t in target], value=last.value if last.value is not None else ast.Constant(value=None))
+        elif isinstance(last, ast.If):
+            last.body = self._returns_to(last.body, target) or [ast.Pass()]
+            last.orelse = self._returns_to(last.orelse, target)
+        return out
+
+    # -- drive ------------------------------------------------------------------
+    def run_function(self, fn, clsname, depth=0):
+        changed = False
+        for node in ast.walk(fn):
+            for field in ('body', 'orelse', 'finalbody'):
+                blk = getattr(node, field, None)
+                if not (isinstance(blk, list) and blk and isinstance(blk[0], ast.stmt)): continue
+                out = []
+                for st in blk:
+                    rep = self.statement(st, clsname)
+                    if rep is None: out.append(st)
+                    else: out.extend(rep); changed = True
+                setattr(node, field, out)
+            for h in getattr(node, 'handlers', []):
+                out = []
+                for st in h.body:
+                    rep = self.statement(st, clsname)
+                    if rep is None: out.append(st)
+                    else: out.extend(rep); changed = True
+                h.body = out
+        # single-expression helpers inside larger expressions
+        sub = _ExprInline(self, clsname)
+        sub.visit(fn)
+        changed = changed or sub.changed
+        if changed and depth < 3: self.run_function(fn, clsname, depth + 1)
+        return changed
+
+    def statement(self, st, clsname):
+        call, kind, target = None, None, None
+        if isinstance(st, ast.Expr) and isinstance(st.value, ast.Call): call, kind = st.value, 'expr'
+        elif isinstance(st, ast.Assign) and isinstance(st.value, ast.Call): call, kind, target = st.value, 'assign', st.targets
+        elif isinstance(st, ast.Return) and isinstance(st.value, ast.Call): call, kind = st.value, 'return'
+        if call is None: return None
+        helper, recv = self.resolve(call, clsname)
+        if helper is None: return None
+        m = self.bind(helper, call, recv)
+        if m is None: return None
+        rep = self.splice(helper, m, kind, target)
+        if rep is None: return None
+        for r in rep:
+            ast.copy_location(r, st)
+            for x in ast.walk(r):
+                if not hasattr(x, 'lineno') and isinstance(x, (ast.stmt, ast.expr)): ast.copy_location(x, st)
+        return rep or [ast.copy_location(ast.Pass(), st)]
+
+
+class _ExprInline(ast.NodeTransformer):
+    def __init__(self, inl, clsname): self.inl, self.clsname, self.changed = inl, clsname, False
+    def visit_Call(self, node):
+        self.generic_visit(node)
+        helper, recv = self.inl.resolve(node, self.clsname)
+        if helper is None: return node
+        body = _body(helper)
+        if len(body) != 1 or not isinstance(body[0], ast.Return) or body[0].value is None: return node
+        m = self.inl.bind(helper, node, recv)
+        if m is None: return node
+        uses = {}
+        for x in ast.walk(body[0].value):
+            if isinstance(x, ast.Name): uses[x.id] = uses.get(x.id, 0) + 1
+        if not all(_simple(a) or uses.get(p, 0) <= 1 for p, a in m.items()): return node
+        if self.inl.locals_of(helper): return node          # comprehension variables etc. are fine; assigned locals are not
+        self.changed = True
+        new = _Bind(m, '', set()).visit(copy.deepcopy(body[0].value))
+        return ast.copy_location(new, node)
+
+
+def inline_helpers(tree):
+    inl = _Inliner(tree)
+    if not inl.mod_helpers and not inl.cls_helpers: return tree
+    for top in tree.body:
+        if isinstance(top, ast.FunctionDef): inl.run_function(top, None)
+        elif isinstance(top, ast.ClassDef):
+            for f in top.body:
+                if isinstance(f, ast.FunctionDef): inl.run_function(f, top.name)
     return tree
